@@ -1103,7 +1103,7 @@ func main() {
 			w.Add(c)
 		}
 		last := func(t []uint64) { t[len(t)-1] ^= 2 }
-		// a relation id that "converts" to a node (what the code did before fix 8da90bd)
+		// a relation id that "converts" to a node (what the code did before fix 8024a58)
 		canary(convCase(3, 5, 1), func(t []uint64) { t[4], t[5] = 2, 10 }) // FeatureID.NodeID: ok, 5
 		canary(countsCase(1, []triple{{1, 1, 1}, {2, 1, 1}, {4, 1, 0}}), last)
 		canary(listCase(0, []triple{{1, 1, 1}, {3, 9, 2}}), func(t []uint64) { t[len(t)-2] ^= 2 })
